@@ -23,6 +23,9 @@ type ChoicePoint struct {
 // Chooser is handed to one execution.
 type Chooser struct {
 	prefix []int
+	// Policy, if set, answers the points beyond the prefix (default: choice 0). It lets a harness
+	// script one deep execution (a line, not a tree) by label, e.g. "fail retriably at every commit".
+	Policy func(n int, label string, index int) int
 	Points []ChoicePoint
 	// Diverged is set when the replayed prefix met a different point than was recorded.
 	expect []ChoicePoint
@@ -50,6 +53,10 @@ func (c *Chooser) choose(n int, label string, free bool) int {
 		}
 		if i < len(c.expect) && (c.expect[i].N != n || c.expect[i].Label != label) {
 			panic(ErrDiverged{fmt.Sprintf("replay diverged at point %d: recorded (%d,%s) now (%d,%s)", i, c.expect[i].N, c.expect[i].Label, n, label)})
+		}
+	} else if c.Policy != nil {
+		if ch = c.Policy(n, label, i); ch < 0 || ch >= n {
+			ch = 0
 		}
 	}
 	c.Points = append(c.Points, ChoicePoint{N: n, Label: label, Choice: ch, Free: free})
